@@ -23,7 +23,7 @@ import (
 func init() {
 	Registry["C12"] = &Check{
 		Scenarios: c12Scenarios,
-		Rule: "peer scripts: MaxRetransmits R in {0,1,2} (thorough 0..3); for the k-th CER received the peer does one of {nothing, success CEA, failing CEA 5010, CEA without Origin-Host, CEA without Result-Code, success CEA without any application, success CEA with an unsupported application, success CEA whose only application information is a Vendor-Specific-Application-Id group {Vendor-Id, unsupported id} / {Vendor-Id} / {Vendor-Id, supported id}, disconnect} after a delay in {0, 1/2, 1, 3/2} RetransmitInterval on the virtual clock; scenarios in which the transport takes 1/2 or 3/2 interval to accept a CER (slow writes); quick: every script with one answering CER index, thorough: also every script with two answering indexes; after a success every set of extras from {duplicate success CEA, late failing CEA, RAA, both a CEA and an RAA}. Every schedule of client goroutines, reader, timers and peer steps up to preemption bound 2 (quick) / unbounded (thorough); timers that are due may fire at any later step, so every tie ordering is explored. Eight scenarios go through the library's own dial entry points (sm.Client.DialTimeout and DialTLSTimeout; the instrumented dialer hands out an in-memory connection, deadlines run on the virtual clock, the TLS variant has a real crypto/tls server as peer): dial timeout {none, shorter than the handshake, shorter than the idle period, generous}, success CEA to the last permitted CER, an idle period, then a duplicate CEA and an answer for the application.",
+		Rule: "the application registers an RAA handler and, when the library watchdog is off, its own DWA handler; application answers delivered after the handshake alternate between DWA and RAA. peer scripts: MaxRetransmits R in {0,1,2} (thorough 0..3); for the k-th CER received the peer does one of {nothing, success CEA, failing CEA 5010, CEA without Origin-Host, CEA without Result-Code, success CEA without any application, success CEA with an unsupported application, success CEA whose only application information is a Vendor-Specific-Application-Id group {Vendor-Id, unsupported id} / {Vendor-Id} / {Vendor-Id, supported id}, disconnect} after a delay in {0, 1/2, 1, 3/2} RetransmitInterval on the virtual clock; scenarios in which the transport takes 1/2 or 3/2 interval to accept a CER (slow writes); quick: every script with one answering CER index, thorough: also every script with two answering indexes; after a success every set of extras from {duplicate success CEA, late failing CEA, RAA, both a CEA and an RAA}. Every schedule of client goroutines, reader, timers and peer steps up to preemption bound 2 (quick) / unbounded (thorough); timers that are due may fire at any later step, so every tie ordering is explored. Eight scenarios go through the library's own dial entry points (sm.Client.DialTimeout and DialTLSTimeout; the instrumented dialer hands out an in-memory connection, deadlines run on the virtual clock, the TLS variant has a real crypto/tls server as peer): dial timeout {none, shorter than the handshake, shorter than the idle period, generous}, success CEA to the last permitted CER, an idle period, then a duplicate CEA and an answer for the application.",
 		Assume: []string{"virtual time: writes and computation take no time; lateness exists only where the peer script introduces it", "data-race freedom between visible operations (audited separately with -race)"},
 		QuickBudget: 150, ThoroughBudget: 2400,
 	}
@@ -224,6 +224,11 @@ func c12ScenarioSlow(R int, script []c12Act, extras []string, bound int, slow []
 		st.localAddr = localAddr
 		mach := sm.New(settings)
 		mach.HandleFunc("RAA", func(c diam.Conn, m *diam.Message) { st.raaHandled++; vs.Event("application handler got RAA") })
+		if !watchdog {
+			// without the library's watchdog the application may run its own: it registers the DWA
+			// handler itself (sm.Client documents that), and answers to ITS DWRs must reach it
+			mach.HandleFunc("DWA", func(c diam.Conn, m *diam.Message) { st.raaHandled++; vs.Event("application handler got DWA") })
+		}
 		cli := &sm.Client{Handler: mach, Dict: dict.Default, MaxRetransmits: uint(R), RetransmitInterval: c12Interval,
 			EnableWatchdog: watchdog, WatchdogInterval: 2 * c12Interval,
 			AuthApplicationID: []*diam.AVP{diam.NewAVP(avp.AuthApplicationID, avp.Mbit, 0, datatype.Unsigned32(4))},
@@ -282,6 +287,9 @@ func c12ScenarioSlow(R int, script []c12Act, extras []string, bound int, slow []
 							case "raa":
 								st.raaSent++
 								h := refcodec.Header{Version: 1, Flags: 0, Code: 258, App: 0, HbH: 77, E2E: uint32(st.raaSent)}
+								if !watchdog && st.raaSent%2 == 1 {
+									h.Code = 280 // every other application answer is a DWA (the application's own watchdog)
+								}
 								deliver("raa", refcodec.EncodeMessage(h, []refcodec.Node{u32avp(268, 2001), ident(264, "srv"), ident(296, "test")}))
 							}
 						}
@@ -449,7 +457,7 @@ func c12ScenarioSlow(R int, script []c12Act, extras []string, bound int, slow []
 				v = append(v, fmt.Sprintf("handshake succeeded but the library closed the transport afterwards (delivered after success: %v; panics: %v)", st.delivered, s.Panics()))
 			}
 			if st.raaHandled != st.raaSent {
-				v = append(v, fmt.Sprintf("after the handshake %d RAA were delivered, the application handler saw %d (delivered: %v; panics: %v)", st.raaSent, st.raaHandled, st.delivered, s.Panics()))
+				v = append(v, fmt.Sprintf("after the handshake %d application answers (RAA / DWA) were delivered, the application's handlers saw %d (with the watchdog off every other one is a DWA for the handler the application registered itself; delivered: %v; panics: %v)", st.raaSent, st.raaHandled, st.delivered, s.Panics()))
 			}
 		}
 		return strings.Join(v, " | ")
